@@ -9,7 +9,7 @@ import numpy as np
 from .. import refmodel as R
 from .. import gen as G
 from ..exact import Unsupported
-from ..storejudge import decode_store, in_core_domain, STORE_OPS
+from ..storejudge import decode_store, in_core_domain, STORE_OPS, underflows_to_zero, UNDERFLOW_KEY
 from . import c01
 
 ID = 'C05'
@@ -99,7 +99,12 @@ def make_judges(ctx):
                 else:
                     ok = False
             if not ok:
-                ctx.violation('relation', '%s %s: input %s (scaled %s) stored as code %d violates the %s contract' % (
+                if q == 0 and underflows_to_zero(v, post.n_frac):
+                    ctx.violation('relation', '%s %s: input %.3e is scaled to +-0 in double arithmetic and stored as 0, which violates the %s contract' % (
+                        R.dtype_fxp(*post.fmt()), mode, float(v), mode), ev, key=UNDERFLOW_KEY)
+                    all_exact_in_range = False
+                    continue
+                ctx.violation('relation', '%s %s: input %.60s (scaled %.60s) stored as code %d violates the %s contract' % (
                     R.dtype_fxp(*post.fmt()), mode, v, x, q, mode), ev)
                 break
             if len(keys) < 12:
